@@ -217,10 +217,14 @@ TMove ==
              /\ UNCHANGED <<calls, taint>>
           \* C03: the in-flight message of a consumer whose process died becomes deliverable again,
           \* once its execution timeout has elapsed -- and not before, and never while the holder is alive
-          \/ /\ k = 0 /\ holder[i] \in dead
+          \/ /\ (k = 0 \/ cl.op = "maint") /\ holder[i] \in dead
              /\ \/ "reclaim" \in chk => now > rdl[i]
                 \* (known finding: Redis keeps the in-flight clock in whole seconds: up to < 1 s early)
                 \/ Dev("redis_reclaim_whole_second") /\ now > rdls[i]
+             /\ \E pl \in Cats : ReturnHeld(holder[i], i, pl)
+             /\ UNCHANGED <<calls, taint>>
+          \* C14: the broker's maintenance never takes a message away from a holder that is alive (clause `holder')
+          \/ /\ "holder" \notin chk /\ cl.op = "maint" /\ holder[i] # NoC /\ holder[i] \notin dead
              /\ \E pl \in Cats : ReturnHeld(holder[i], i, pl)
              /\ UNCHANGED <<calls, taint>>
           \* ---- deviations of listed known findings (only in re-validation; the message is tainted from here on)
